@@ -316,6 +316,7 @@ func (ch *Chain) Exec(e M) Outcome {
 	f := ch.F
 	ty := absx.Str(e["type"])
 	fail := func(r Result) Outcome { return Outcome{OK: false, Err: r.ErrString()} }
+	f.LastRaw = ""
 	if ch.V != nil {
 		f.Child.ExecutorChangePlans = ch.V.Plans
 	}
